@@ -146,7 +146,7 @@ def shard(shard, nshards, rng, tier, extra):
         vals += [rng.choice([0.0, -0.0, 0.0, float(rng.randint(0, 3) * 2 ** -nf), float(2 ** (-nf - 1))]) for _k in range(rng.choice([1, 2, 3]))]
         if not s: vals = [abs(v) for v in vals]
         rng.shuffle(vals)
-        cases.append({'s': s, 'nw': nw, 'nf': nf, 'r': rng.choice(RMODES), 'o': rng.choice(OMODES), 'carrier': rng.choice(['arr:float64', 'list', 'tuple']),
+        cases.append({'s': s, 'nw': nw, 'nf': nf, 'r': rng.choice(RMODES), 'o': rng.choice(OMODES), 'carrier': rng.choice(['arr:float64', 'list', 'tuple', 'list_dec_first']),
                       'route': rng.choice(S.ROUTES[:3]), 'vals': vals, 'setmode': 'slice'})
     check_relations(cases, res, 'T:vanishing-next-to-zeros', keep_array=True)
     idempotence(rng, res, tier, shard, nshards)
